@@ -146,6 +146,9 @@ def zone_list(tier, now, rng=None):
         ("rule:now-in-repeated-hour-1st", f"XXX-1YYY,J{far},J{julian_no_leap(back_in_20min)}/{hms(back_in_20min)}", None),
         ("rule:now-just-after-gap", f"XXX-1YYY,J{julian_no_leap(fwd_5min_ago)}/{hms(fwd_5min_ago)},J{far}", None),
         ("rule:southern-wrap", "SSS-10TTT,J300,J60", None),
+        # a zone whose offset is exactly +00:00 for half of the year and +01:00 now (London, Lisbon), and the reverse
+        ("rule:zero-offset-other-half", f"GGG0HHH,J{k},J365" if j > 182 else f"GGG0HHH,J1,J{k}", None),
+        ("rule:zero-offset-now", f"GGG0HHH,J1,J{k}" if j > 182 else f"GGG0HHH,J{k},J365", None),
     ]
     if tier == "thorough":
         for n in ["Asia/Kolkata", "Asia/Kathmandu", "Pacific/Chatham", "America/St_Johns", "Australia/Lord_Howe", "Europe/Dublin",
